@@ -13,6 +13,11 @@ import Driver.Cleanup
 import Driver.Heap
 import Driver.ExitStackReentrant
 import Driver.ScopeExit
+import Driver.TeeClose
+import Driver.ChainObj
+import Driver.DecoratorDirect
+import Driver.ExitStackEnter
+import Driver.CloseBusy
 import Driver.Tools
 open Lean
 
@@ -26,6 +31,11 @@ def dispatch (j : Json) : Except String Json := do
   | "heap" => Drv.Heap.run j
   | "exitstackre" => Drv.ExitStackRe.run j
   | "scopeexit" => Drv.ScopeExit.run j
+  | "teeclose" => Drv.TeeClose.run j
+  | "chainobj" => Drv.ChainObj.run j
+  | "decoratordirect" => Drv.DecoratorDirect.run j
+  | "exitstackenter" => Drv.ExitStackEnter.run j
+  | "closebusy" => Drv.CloseBusy.run j
   | "tool" => Drv.Tools.run j
   | "contextmanager" => Drv.ContextManager.run j
   | "adapters" => Drv.Adapters.run j
